@@ -59,7 +59,7 @@ def check_enqueue(p, w, r):
         key = f'{s.ci.label}.{name}::enqueue'
         bad = None
         for pa in w.roots[name]:
-            if pa.raises:
+            if pa.raises or pa.status == 'loopcut':
                 continue
             evs = pa.events
             appends = [e for e in evs if e.kind == 'op' and e.list == Q]
